@@ -100,4 +100,33 @@ theorem get_of_mem_nodup {t : Tbl κ α} {k : κ} {v : α} (hn : (keys t).Nodup)
         exact ⟨(k0, v), h, rfl⟩
       · simp [get, hk]; exact ih hn'.2 h
 
+theorem get_append (a b : Tbl κ α) (k : κ) : get (a ++ b) k = (get a k).orElse (fun _ => get b k) := by
+  induction a with
+  | nil => simp [get]
+  | cons e t ih =>
+    obtain ⟨k0, v0⟩ := e
+    by_cases hk : k0 = k
+    · simp [get, hk]
+    · simp [get, hk, ih]
+
+theorem get_dedup (t : Tbl κ α) (k : κ) : get (dedup t) k = get t k := by
+  induction t with
+  | nil => rfl
+  | cons e t ih =>
+    obtain ⟨k0, v0⟩ := e
+    by_cases hk : k0 = k
+    · simp [dedup, get, hk]
+    · simp only [dedup, get, hk, if_false]
+      rw [get_erase_ne _ hk, ih]
+
+theorem nodup_keys_dedup (t : Tbl κ α) : (keys (dedup t)).Nodup := by
+  induction t with
+  | nil => simp [dedup, keys]
+  | cons e t ih =>
+    obtain ⟨k0, v0⟩ := e
+    have h1 := nodup_keys_erase k0 ih
+    have h2 : k0 ∉ keys (erase (dedup t) k0) := fun hm => (keys_erase_subset _ k0 k0 hm).2 rfl
+    simp [dedup, keys] at h1 h2 ⊢
+    exact ⟨h2, h1⟩
+
 end Galaxy.Tbl
